@@ -11,8 +11,11 @@ import (
 	"gonum.org/v1/gonum/graph/internal/set"
 )
 
-// DegeneracyOrdering returns the degeneracy ordering and the k-cores of
-// the undirected graph g.
+// DegeneracyOrdering returns the degeneracy ordering of the undirected
+// graph g and its nodes grouped by core number: cores[k] holds the nodes
+// that are in the k-core of g but not in its (k+1)-core. The k-core of g
+// is therefore the union of cores[k:], which KCore returns. The elements
+// of cores are slices of order.
 func DegeneracyOrdering(g graph.Undirected) (order []graph.Node, cores [][]graph.Node) {
 	order, offsets := degeneracyOrdering(g)
 
